@@ -46,4 +46,4 @@ Fixpoint dedupN (l : list N) (seen : list N) : list N :=
   | h :: t => if existsb (N.eqb h) seen then dedupN t seen else h :: dedupN t (h :: seen)
   end.
 Definition ca_conflicts (e : ca) : list N :=
-  dedupN (flat_map (fun c => flat_map (fun p => if cacc_eqb (snd p) Conflict then [fst p] else []) c) e) [].
+  dedupN (flat_map (fun c => flat_map (fun p => if conflict_acc (snd p) then [fst p] else []) c) e) [].
